@@ -15,6 +15,7 @@ rm -rf $T; mkdir -p $T/prof
 BIN=$(dirname $(rustup which --toolchain nightly rustc))/../lib/rustlib/x86_64-unknown-linux-gnu/bin
 export CARGO_NET_OFFLINE=true CARGO_TARGET_DIR=$T/target
 export RUSTFLAGS="--cfg melstf_verif -Cinstrument-coverage"
+export LLVM_PROFILE_FILE=$T/buildprof/build-%p-%m.profraw   # build scripts and proc macros are instrumented too
 (cd harness && cargo +nightly build --release --offline --quiet --bin melverif) || { echo "coverage build failed"; rm -rf $T; exit 2; }
 exe=$T/target/release/melverif
 for id in $checks; do
